@@ -1953,6 +1953,11 @@ class Array(DaskMethodsMixin):
             if value.ndim:
                 value = broadcast_to(value, self[key].shape)
 
+            if isinstance(self._meta, np.ma.MaskedArray) or isinstance(
+                getattr(value, "_meta", None), np.ma.MaskedArray
+            ):
+                # np.where drops masks
+                from dask.array.ma import where
             y = where(key, value, self)
             # FIXME does any backend allow mixed ops vs. numpy?
             # If yes, is it wise to let them change the meta?
